@@ -63,6 +63,7 @@ func roundHalfAway(f float64) float64            { return f }
 func f2iInRange64(f float64) bool                { return true }
 func f2iTrunc(f float64) int64                   { return int64(f) }
 func loopEntry[T any](x T) T                     { return x }
+func allocatedBeforeLoop(x any) bool             { return true }
 func exactCmpIF(i int64, f float64) int          { return 0 }
 func errIsCtx(err error) bool                    { return false }
 func sameSlice[T any](a, b []T) bool             { return len(a) == len(b) }
@@ -388,9 +389,12 @@ func outLast() any                               { return nil }
 
 //@ func (*Executor).executeItemOptUnwrapResult
 //@ props C01 C13
+//@ assumes the-result-list-existed-before-the-call: found != nil ==> !freshBase(found.list)
 //@ requires node != nil
 //@ requires unwrap && exec.path.IsLax() ==> found != nil
 //@ loop 1 invariant [C20 C05] no-pending: pendingErr() == nil && !pendingFailed()
+//@ loop 1 invariant [C05 C19] items-older-than-the-loop: found != seq && (seq.list == nil || freshBase(seq.list) && allocatedBeforeLoop(seq.list)) && forall(func(k int) bool { return implies(0 <= k && k < len(seq.list) && is[[]any](seq.list[k]), allocatedBeforeLoop(as[[]any](seq.list[k]))) })
+//@ loop 1 invariant [C05 C19] own-backing-array: sameBase(found.list, old(found.list)) && !freshBase(old(found.list)) || freshBase(found.list) && (seq.list == nil || !sameBase(found.list, seq.list)) && forall(func(k int) bool { return implies(0 <= k && k < len(seq.list) && is[[]any](seq.list[k]), !sameBase(found.list, as[[]any](seq.list[k]))) })
 //@ ensures [C01 C13] direct: !(unwrap && exec.path.IsLax()) ==> ncalls(exec.executeItem) == 1 && callarg[*valueList](exec.executeItem, "found") == found && callarg[any](exec.executeItem, "value") == value && r0 == callret[resultStatus](exec.executeItem, 0) && r1 == callret[error](exec.executeItem, 1)
 //@ ensures [C01 C13] collected: unwrap && exec.path.IsLax() ==> callarg[any](exec.executeItem, "value") == value && callarg[ast.Node](exec.executeItem, "node") == node && fresh(callarg[*valueList](exec.executeItem, "found"))
 //@ ensures [C01 C13] collected-failed: unwrap && exec.path.IsLax() && callret[resultStatus](exec.executeItem, 0) == statusFailed ==> r0 == statusFailed && r1 == callret[error](exec.executeItem, 1)
